@@ -68,6 +68,8 @@ type margs struct {
 	minMax   int64 // smallest maximum size passed to ToByteSlice / CloneCopy, -1 if none
 	leaf     string
 	viaClone bool
+	handler  bool // an error handler decoration is involved: not in the model's language
+	task     bool
 }
 
 func methodArgs(m []string) margs {
@@ -84,6 +86,14 @@ func methodArgs(m []string) margs {
 			continue
 		case "cs":
 			a.viaClone = true
+			m = m[1:]
+			continue
+		case "wt":
+			a.task = true
+			m = m[1:]
+			continue
+		case "eh":
+			a.handler = true
 			m = m[1:]
 			continue
 		case "ra", "cr":
